@@ -1,6 +1,6 @@
 INIT Init
 NEXT Next
-CONSTANT Randomized = FALSE
+CONSTANT Randomized = TRUE
 CONSTANT Family = "single"
 INVARIANT Emit
 CHECK_DEADLOCK FALSE
